@@ -204,6 +204,10 @@ class PendingFigure(PendingTask):
 class JSONVisitor:
     """Node visitor that creates a JSON-serializable structure."""
 
+    # Whether a paragraph holding nothing but a substitution reference becomes a
+    # block-level substitution reference
+    emit_block_substitutions = True
+
     def __init__(
         self,
         project_config: ProjectConfig,
@@ -433,8 +437,10 @@ class JSONVisitor:
             except IndexError:
                 pass
         elif isinstance(node, tinydocutils.nodes.substitution_reference):
-            if node.parent and eligible_for_paragraph_to_block_substitution(
-                node.parent
+            if (
+                self.emit_block_substitutions
+                and node.parent
+                and eligible_for_paragraph_to_block_substitution(node.parent)
             ):
                 block_substitution_node = n.BlockSubstitutionReference(
                     (line,), [], node["refname"]
@@ -1822,6 +1828,9 @@ def _validate_io_code_block_children(node: n.Directive) -> List[Diagnostic]:
 class InlineJSONVisitor(JSONVisitor):
     """A JSONVisitor subclass which does not emit block nodes."""
 
+    # A lone substitution reference is still inline content here
+    emit_block_substitutions = False
+
     def dispatch_visit(self, node: tinydocutils.nodes.Node) -> None:
         if isinstance(node, tinydocutils.nodes.Body) and not isinstance(
             node, (tinydocutils.nodes.Inline, tinydocutils.nodes.system_message)
@@ -1907,7 +1916,18 @@ class EmbeddedRstParser:
         parser = rstparser.Parser(self.project_config, InlineJSONVisitor)
         visitor, _ = parser.parse(self.page.fileid, text)
         top_of_state = visitor.state[-1]
-        children: MutableSequence[n.InlineNode] = top_of_state.children  # type: ignore
+        children: MutableSequence[n.InlineNode] = [
+            child
+            for child in top_of_state.children
+            if isinstance(child, n.InlineNode)
+        ]
+        if len(children) != len(top_of_state.children):
+            # Sections, lists, directives... have no place in a heading or other inline context
+            self.diagnostics.append(
+                DocUtilsParseError(
+                    "Block-level markup is not allowed here and was ignored", lineno
+                )
+            )
 
         self.diagnostics.extend(visitor.diagnostics)
         self.page.static_assets.update(visitor.static_assets)
